@@ -36,17 +36,20 @@ def cases(tier, seed=0):
                 out.append(make_case(PROP, "roundtrip", kind, Dx, Dy, Rc, Rx, semi=semi, timeout=600))
         if tier == "thorough":
             for (Dx, Dy) in ([(2, 2)] if ident else [(2, 2), (3, 1), (1, 3), (2, 3), (3, 2)]):
-                for (Rc, Rx) in batches + [(1, 3), (3, 1)]:
+                for (Rc, Rx) in batches + ([(1, 3), (3, 1)] if Dx + Dy <= 4 else []):
                     if kind == "nncontrol" and Rc > 2:
                         continue
                     if (Dx, Dy) == (2, 2):
-                        if Rc * Rx <= 2:
+                        if Rc * Rx <= 2 and kind != "nncontrol":
                             for semi in rotations(kind, 1):
                                 if semi != ("M",):      # measured: M concrete alone does not finish in 5 min
-                                    out.append(make_case(PROP, "bayes", kind, Dx, Dy, Rc, Rx, semi=semi, timeout=1800, extra="t"))
+                                    out.append(make_case(PROP, "bayes", kind, Dx, Dy, Rc, Rx, semi=semi, timeout=3000, extra="t"))
                     else:
-                        for semi in rotations(kind, 2):
-                            out.append(make_case(PROP, "bayes", kind, Dx, Dy, Rc, Rx, semi=semi, timeout=1800))
+                        # measured (round 2): with a SYMBOLIC 3x3 noise covariance, or Dx+Dy=5 with only one block concrete pair
+                        # other than (Sx,Sy), the cases need 25-60 min each; they are left out
+                        rots = [("Sx", "Sy")] if (Dy == 3 or Dx + Dy == 5) else rotations(kind, 2)
+                        for semi in rots:
+                            out.append(make_case(PROP, "bayes", kind, Dx, Dy, Rc, Rx, semi=semi, timeout=3000))
                     if Rc * Rx <= 2:
                         out.append(make_case(PROP, "roundtrip", kind, Dx, Dy, Rc, Rx, semi=("Sx", "Sy"), timeout=1800, extra="t"))
     # constructor / history variants: built from the precision only; update_Sigma before the operation
